@@ -12,9 +12,11 @@ Semantic side (`Proofs/PessimisticSpec.lean`): `PessDom W R₁ R₂` :=
 `∀ x ∈ box R₁ ⊂ ℝᵐ, ∃ y ∈ box R₂, ∀ rows w of W, w·(x − y) ≥ 0`; `PessDomQ` is the same over rational
 points in the model's own vocabulary (`dominates W x y = true`).  A region is `(lower, upper)`.
 
-Floating point is *not* covered by the completeness theorems: in binary64 the edge path can miss
-(the intersection's own coordinate rounds one ulp above the target) — finding
-`complete2x2-float-rounding` of the correspondence harness.
+Floating point is *not* covered by the completeness theorems: in binary64 the edge path of the
+original code could miss (the intersection's own coordinate rounds one ulp above the target) —
+finding `complete2x2-float-rounding` of the correspondence harness, repaired in /repo (commit
+2e45ea6) by snapping that coordinate; `snap_irrelevant_exact` shows the repair changes nothing in
+exact arithmetic.
 -/
 namespace VOPy.C11
 open VOPy VOPy.Pess
